@@ -1,5 +1,5 @@
 """Property table and the per-family runners (DESIGN.md sections 4 and 5)."""
-import collections, json, os, random, time
+import collections, json, os, random, re, time
 from vlib import *  # noqa
 
 BAG = {
@@ -78,6 +78,7 @@ PROPS = {
                 gen=[dict(bag="disc", depth=18, quick=220, thorough=3000),
                      dict(bag="hist", depth=16, quick=60, thorough=800, mode="hist")],
                 classes=["sess", "pubsub", "details", "meta", "metaapi", "rpcroute", "rpcreply"], poison=True),
+    "C04": dict(family="hostile", classes=["sess", "pubsub", "rpcreply", "rpcroute", "rpcintr", "metaapi", "meta"]),
     "C13": dict(family="core",
                 mc=dict(kinds=MC_RPC_KINDS,
                         inv=["C13_AtMostOneInterrupt", "C13_Modes", "C13_TimeoutExact", "C02_NoLateTimer"],
@@ -285,3 +286,142 @@ def run_core(prop, spec, tier, seed, work, replay):
                    "testing/synctest quiescence and virtual clock",
                    "TLC"]
     return {"violations": violations, "coverage": cov, "assumptions": assumptions}
+
+
+# ---------------------------------------------------------------------------
+# C04: hostile inputs (spec/Hostile.tla enumerates the mutants)
+
+FEATS_ALL = ["subscriber:publisher_identification", "callee:call_canceling", "callee:call_timeout",
+             "callee:caller_identification", "callee:progressive_call_results", "callee:payload_passthru_mode",
+             "caller:payload_passthru_mode", "publisher:payload_passthru_mode", "callee:progressive_call_invocations",
+             "caller:progressive_call_invocations"]
+
+
+def enumerate_mutants(work, side):
+    cfg = 'SPECIFICATION Spec\nCONSTANT Side = "%s"\nINVARIANT Emitted\nCHECK_DEADLOCK FALSE\n' % side
+    rc, out, wall = tlc(work, "Hostile", cfg, [], 300, workers=1, tag="hostile-" + side)
+    muts = []
+    for m in re.finditer(r'<<"SCN", (".*")>>', out):
+        muts.append(json.loads(unq(m.group(1))))
+    st = parse_mc_stats(out)
+    if not muts or st is None:
+        raise Infra("mutant enumeration failed:\n" + out[-2000:])
+    # unique
+    seen, res = set(), []
+    for m in muts:
+        k = json.dumps(m, sort_keys=True)
+        if k not in seen:
+            seen.add(k)
+            res.append(m)
+    return res, st
+
+
+def U(s):
+    return list(s)
+
+
+def hostile_scenario(n, mu, prop, variant=0, variant_twice=False, bare=False):
+    j = lambda authid, color, local=True: {"authid": authid, "color": color,
+                                           "feats": [] if (bare and color == "tainted") else FEATS_ALL, "local": local, "q": 0}
+    sender = "x2" if mu["t"] in ("CANCEL", "RESULT") else "x1"
+    steps = [
+        {"op": "join", "s": "b1", "join": j("u1", "")},
+        {"op": "join", "s": "b2", "join": j("alice", "", variant % 2 == 0)},
+        {"op": "join", "s": "x1", "join": j("u2", "tainted")},
+        {"op": "join", "s": "x2", "join": j("bob", "tainted", variant % 3 != 0)},
+        {"op": "subscribe", "s": "b1", "req": 1, "uri": U("p.t")},
+        {"op": "register", "s": "b1", "req": 2, "uri": U("p.proc")},
+        {"op": "subscribe", "s": "x1", "req": 1, "uri": U("h.t")},
+        {"op": "register", "s": "x1", "req": 2, "uri": U("h.proc")},
+        {"op": "call", "s": "x2", "req": 1, "uri": U("h.proc"), "tag": "h1", "o": {"rprog": True}},
+        {"op": "hostile", "s": sender, "hm": mu},
+    ]
+    if variant_twice:
+        # repeated / contradictory requests: the same mutant again from the partner,
+        # then ordinary traffic towards whatever the two requests created
+        steps += [
+            {"op": "hostile", "s": "x2", "hm": mu},
+            {"op": "call", "s": "x2", "req": 21, "uri": U("h.proc2"), "tag": "h21"},
+            {"op": "publish", "s": "x2", "req": 22, "uri": U("h.t2"), "tag": "h22", "o": {"xme": "f"}},
+            {"op": "call", "s": "x1", "req": 23, "uri": U("h.proc2"), "tag": "h23"},
+        ]
+    steps += [
+        # probes: everybody else is served exactly per specification
+        {"op": "publish", "s": "b2", "req": 11, "uri": U("p.t"), "tag": "p11", "o": {"ack": True}},
+        {"op": "call", "s": "b2", "req": 12, "uri": U("p.proc"), "tag": "p12"},
+        {"op": "yield", "s": "b1", "id": 1, "tag": "p13"},
+        {"op": "metacall", "s": "b2", "req": 14, "uri": U("wamp.session.count")},
+        {"op": "subscribe", "s": "b2", "req": 15, "uri": U("p.t")},
+        {"op": "publish", "s": "b1", "req": 16, "uri": U("p.t"), "tag": "p16", "o": {"ack": True}},
+    ]
+    return {"id": "%s.h%04d" % (prop, n), "cfg": {"strict": False, "disclose": True, "metakill": True, "hcfg": [],
+                                                  "users": [{"id": "alice", "role": "user"}, {"id": "bob", "role": "admin"}],
+                                                  "authz": [], "lauthz": False},
+            "steps": steps, "epilogue": True}
+
+
+def run_hostile(prop, spec, tier, seed, work, replay):
+    binary = build_harness(work)
+    consts = {"Deviations": tla_set([]), "Classes": tla_set(spec["classes"])}
+    violations = []
+    if replay:
+        scns = [json.load(open(replay))["scenario"]]
+        st = None
+    else:
+        muts, st = enumerate_mutants(work, "router")
+        rnd = random.Random(seed)
+        if tier == "quick":
+            # every (template, position) once with a seeded kind, every extra
+            by = {}
+            for m in muts:
+                by.setdefault((m["t"], m["pos"], m["phase"], m["drop"]), []).append(m)
+            pick = [rnd.choice(v) for k, v in sorted(by.items())]
+            # plus the string-typed option positions with every kind (type confusion)
+            pick += [m for m in muts if m["pos"].startswith("ppt_") or m["pos"] in ("invoke", "match", "mode")]
+            seen, muts2 = set(), []
+            for m in pick:
+                k = json.dumps(m, sort_keys=True)
+                if k not in seen:
+                    seen.add(k)
+                    muts2.append(m)
+            muts = muts2
+        scns = [hostile_scenario(i + 1, m, prop, i) for i, m in enumerate(muts)]
+        twice = [m for m in muts if m["t"] in ("REGISTER", "SUBSCRIBE") and m["phase"] == "joined"
+                 and (tier == "thorough" or m["pos"] in ("invoke", "match"))]
+        scns += [hostile_scenario(len(scns) + i + 1, m, prop, i, True) for i, m in enumerate(twice)]
+        # offenders that announced no features at all using feature-bound options
+        bare = [m for m in muts if m["phase"] == "joined" and (m["pos"].startswith("ppt_") or m["pos"] in ("progress", "receive_progress", "timeout", "disclose_me", "exclude_me"))
+                and (tier == "thorough" or m["kind"] in ("true", "str"))]
+        scns += [hostile_scenario(len(scns) + i + 1, m, prop, i, False, True) for i, m in enumerate(bare)]
+    byid = {s["id"]: s for s in scns}
+    tf, crashes = run_exec(work, binary, scns, "ex", timeout=1800)
+    for c in crashes:
+        mu = next((s for s in byid[c["scn"]]["steps"] if s["op"] == "hostile"), {}).get("hm")
+        line = next((l for l in c["stderr"].splitlines() if l.startswith("panic:") or l.startswith("fatal error:")), "?")
+        site = next((l.strip() for l in c["stderr"].splitlines() if "/repo/" in l), "")
+        violations.append({"kind": "crash", "scn": c["scn"], "scenario": byid[c["scn"]], "stderr": c["stderr"], "mutant": mu,
+                           "sig": {"op": "crash", "panic": line, "site": site.split(" ")[0]},
+                           "summary": "router died on hostile input %s: %s at %s" % (json.dumps(mu), line, site)})
+    evs = read_trace(tf)
+    ok, nev, fails = validate_all(work, "Trace", "TraceSpec", consts, tf, "val", max_viol=8)
+    for f in fails:
+        mu = next((s for s in byid[f["scn"]]["steps"] if s["op"] == "hostile"), {}).get("hm")
+        violations.append({"kind": "trace-rejected", "scn": f["scn"], "scenario": byid[f["scn"]], "step": f["step"], "mutant": mu,
+                           "explain": f["explain"], "story": f["story"].split("\n"), "sig": violation_sig(f),
+                           "summary": "after hostile input %s another session was not served per specification (step %d)" % (json.dumps(mu), f["step"])})
+    if replay:
+        return {"violations": violations, "coverage": {}}
+    groups, order = split_by_scn(evs)
+    bad = {v["scn"] for v in violations}
+    good = [s for s in order if s not in bad][:2]
+    cov = {"states": st["distinct"], "transitions": st["generated"], "traces_validated_against_impl": ok,
+           "samples": [{"scenario": s, "mutant": next((x for x in byid[s]["steps"] if x["op"] == "hostile"), {}).get("hm"),
+                        "story": scenario_story(groups[s]).split("\n")[-14:]} for s in good],
+           "evaluations": len(scns), "distinct_nontrivial": len({json.dumps(next((x for x in s["steps"] if x["op"] == "hostile"), {}).get("hm"), sort_keys=True) for s in scns}),
+           "rule": "TLC enumerates spec/Hostile.tla (template x position x kind x phase); each mutant is sent by an offender session "
+                   "while bystanders hold subscriptions/registrations on disjoint URIs; afterwards probe steps by the bystanders must be "
+                   "answered exactly per Core.tla; a dead worker process is a crash verdict. distinct = distinct mutants executed",
+           "crashes": len(crashes), "exhaustive": tier == "thorough"}
+    return {"violations": violations, "coverage": cov,
+            "assumptions": ["ill-typed *fields* (as opposed to option values) need a serializer and are covered by the wire family",
+                            "structural enumeration, not all byte strings", "TLC", "testing/synctest"]}
